@@ -216,8 +216,10 @@ def const_str_array(src, name):
 def tok_to_syntax(src):
     body = region_after(src, r"impl From<TokenKind> for rowan::SyntaxKind\s*\{")
     mp = {}
-    for m in re.finditer(r"TokenKind::([A-Za-z0-9_]+)\s*=>\s*SyntaxKind::([A-Za-z0-9_]+)\s*,", body):
-        mp[m.group(1)] = m.group(2)
+    # one arm per token kind or several kinds joined by `|` in one arm
+    for m in re.finditer(r"((?:\|?\s*TokenKind::[A-Za-z0-9_]+\s*)+)=>\s*SyntaxKind::([A-Za-z0-9_]+)\s*,", body):
+        for k in re.findall(r"TokenKind::([A-Za-z0-9_]+)", m.group(1)):
+            mp[k] = m.group(2)
     return mp
 
 
